@@ -15,6 +15,7 @@ import (
 	"crypto/hmac"
 	"crypto/sha256"
 	"encoding/base64"
+	"errors"
 	"fmt"
 	"io"
 	"net/http"
@@ -66,6 +67,8 @@ type c02Req struct {
 	Cn int    `json:"cn"`           // client cancel, ticks after arrival; -1: never
 	GZ bool   `json:"gz,omitempty"` // the body is a gzip stream and says so (Content-Encoding: gzip)
 	BB bool   `json:"bb,omitempty"` // the body never delivers: Read blocks until the case is over (the handlers never read it)
+	CC int    `json:"cc,omitempty"` // > 0: the client's cancel goes through context.WithCancelCause with a cause of this kind (c02CauseKinds)
+	DC int    `json:"dc,omitempty"` // > 0: the request's own deadline comes from context.WithTimeoutCause / WithDeadlineCause with a cause of this kind
 	TK int    `json:"tk,omitempty"` // route with WithJwtTransition: 1 = the request's token is signed with the previous secret (valid as well)
 	// RB: the handler streams its body through ONE buffer of its own (as io.CopyBuffer, a bufio.Writer or a
 	// pooled encoder buffer do): every Write hands the writer a slice of that buffer, and the handler
@@ -381,6 +384,37 @@ func c02WriteStep(e *c02Emitter, id, i int, s c02Step) {
 			e.write(c02BytesJ(id, i, j, n))
 		}
 	}
+}
+
+// Caller contexts that end WITH A CAUSE (Go 1.20+: context.WithCancelCause, WithTimeoutCause,
+// WithDeadlineCause). ctx.Err() of such a context is still context.Canceled resp.
+// context.DeadlineExceeded — the statement's "client cancel" / "deadline" — while
+// context.Cause(ctx) is whatever the caller passed. Kind 0: the plain constructors.
+var c02CauseKinds = []string{"none", "custom-error", "sentinel-io.EOF", "wrapped-context.DeadlineExceeded", "wrapped-context.Canceled",
+	"status-like-error", "nil-cause", "context.DeadlineExceeded-itself", "context.Canceled-itself"}
+
+type c02CauseErr struct{ msg string }
+
+func (e *c02CauseErr) Error() string { return e.msg }
+
+func c02Cause(kind, n int) error {
+	switch kind {
+	case 1:
+		return errors.New(fmt.Sprintf("c02cause: upstream gave up, %d", n))
+	case 2:
+		return io.EOF
+	case 3:
+		return fmt.Errorf("c02cause %d: %w", n, context.DeadlineExceeded)
+	case 4:
+		return fmt.Errorf("c02cause %d: %w", n, context.Canceled)
+	case 5:
+		return &c02CauseErr{msg: fmt.Sprintf("c02cause: rpc error: code = NotFound desc = %d", n)}
+	case 7:
+		return context.DeadlineExceeded // as the cause of a CANCEL it must not turn the result into a deadline
+	case 8:
+		return context.Canceled // as the cause of a DEADLINE it must not turn the result into a cancel
+	}
+	return nil // kind 6: cancel(nil) / WithTimeoutCause(.., nil)
 }
 
 var c02HdrKinds = []string{"plain", "empty-value", "format-verbs", "multi-byte", "4KB-value", "two-values", "non-canonical-key"}
@@ -812,7 +846,8 @@ func c02Valid(c c02Case) bool {
 	for _, g := range c.G {
 		risky := make([]int, c.slots())
 		for _, q := range g {
-			if q.Rt < 0 || q.Rt >= len(c.R) || q.Sv < 0 || q.Sv >= c.servers() || q.At < 0 || q.BL < 0 || q.CL < 0 || q.DL < 0 || id >= 90 || (q.GZ && q.BB) || q.TK < 0 || q.TK > 1 {
+			if q.Rt < 0 || q.Rt >= len(c.R) || q.Sv < 0 || q.Sv >= c.servers() || q.At < 0 || q.BL < 0 || q.CL < 0 || q.DL < 0 || id >= 90 || (q.GZ && q.BB) || q.TK < 0 || q.TK > 1 ||
+				q.CC < 0 || q.CC >= len(c02CauseKinds) || q.DC < 0 || q.DC >= len(c02CauseKinds) || (q.CC > 0 && q.Cn < 0) || (q.DC > 0 && q.DL == 0) {
 				return false
 			}
 			seenWrite, afterBlock := false, false
@@ -1020,13 +1055,27 @@ func c02Run(t *testing.T, c c02Case, build c02Builder, leakExpected bool) (v kit
 				ctx := context.Background()
 				if fl.q.DL > 0 {
 					var cancel context.CancelFunc
-					ctx, cancel = context.WithTimeout(ctx, time.Duration(fl.q.DL-1)*c02Tick)
+					switch {
+					case fl.q.DC == 0:
+						ctx, cancel = context.WithTimeout(ctx, time.Duration(fl.q.DL-1)*c02Tick)
+					case fl.id%2 == 0:
+						ctx, cancel = context.WithTimeoutCause(ctx, time.Duration(fl.q.DL-1)*c02Tick, c02Cause(fl.q.DC, fl.id))
+					default:
+						ctx, cancel = context.WithDeadlineCause(ctx, time.Now().Add(time.Duration(fl.q.DL-1)*c02Tick), c02Cause(fl.q.DC, fl.id))
+					}
 					defer cancel()
 				}
-				if fl.q.Cn >= 0 {
+				if fl.q.Cn >= 0 && fl.q.CC == 0 {
 					var cancel context.CancelFunc
 					ctx, cancel = context.WithCancel(ctx)
 					tm := time.AfterFunc(time.Duration(fl.q.Cn)*c02Tick, cancel)
+					defer tm.Stop()
+				}
+				if fl.q.Cn >= 0 && fl.q.CC > 0 {
+					var cancel context.CancelCauseFunc
+					ctx, cancel = context.WithCancelCause(ctx)
+					cause := c02Cause(fl.q.CC, fl.id)
+					tm := time.AfterFunc(time.Duration(fl.q.Cn)*c02Tick, func() { cancel(cause) })
 					defer tm.Stop()
 				}
 				var body io.Reader = strings.NewReader(strings.Repeat("b", fl.q.BL))
@@ -1146,6 +1195,15 @@ func c02SweepClasses(c c02Case, q c02Req, p c02Plan, t, mb int, cls map[string]b
 	}
 	if q.BL >= 255 {
 		cls["request-body>=255B"] = true
+	}
+	if q.CC > 0 {
+		cls["client-cancel-with-cause:"+c02CauseKinds[q.CC]] = true
+	}
+	if q.DC > 0 {
+		cls["request-deadline-with-cause:"+c02CauseKinds[q.DC]] = true
+	}
+	if t > 0 && p.d >= 0 && p.f >= p.d && ((q.CC > 0 && q.Cn == p.d) || (q.DC > 0 && q.DL-1 == p.d)) {
+		cls["context-with-cause-ends-the-request"] = true
 	}
 	if q.DL > 0 {
 		cls["request-context-has-deadline"] = true
@@ -1732,6 +1790,12 @@ func c02GenCase(rt *rapid.T) c02Case {
 			}
 			if benign && c02MakePlanX(c, id, q, false).risky {
 				q.Cn, q.DL = -1, 0 // a deadline at the arrival instant would make even an immediate handler a possible 499/503
+			}
+			if q.Cn >= 0 && rapid.Bool().Draw(rt, "cancelcause") {
+				q.CC = rapid.IntRange(1, len(c02CauseKinds)-1).Draw(rt, "cc")
+			}
+			if q.DL > 0 && rapid.Bool().Draw(rt, "deadlinecause") {
+				q.DC = rapid.IntRange(1, len(c02CauseKinds)-1).Draw(rt, "dc")
 			}
 			if c02MakePlanX(c, id, q, false).risky {
 				risky[c.slot(q.Sv, q.Rt)]++
